@@ -75,6 +75,27 @@ example : chunked 3 none none [0, 1, 2, 3, 4, 5, 6] = .ok [[0, 1, 2], [3, 4, 5],
 example : chunked 3 none (some 9) [0, 1, 2, 3] = .ok [[0, 1, 2], [3, 9, 9]] := by rfl
 example : chunked 3 (some 1) none [0, 1, 2, 3] = .ok [[0, 1, 2]] := by rfl
 
+/-! ### round 3: the type of the chunks -/
+
+/-- SOURCE FACTS, re-established on every run: for an input of every kind the harness knows (list, tuple,
+    iterators, str, bytes, bytearray, deque, range, dict, memoryview, array, bare iterables) the chunks the
+    current `chunked_iter` yields have the type the model says: str for a str, bytes for a bytes, else list -/
+theorem chunk_kind_table_agrees :
+    Generated.chunkTypeTable.all (fun r => r.2 == (chunkKind (SrcKind.ofName r.1)).name) = true ∧
+    Generated.chunkTypeTable.any (fun r => r.1 == "str") = true ∧
+    Generated.chunkTypeTable.any (fun r => r.1 == "bytes") = true ∧
+    Generated.chunkTypeTable.any (fun r => r.1 == "bytearray") = true := by decide
+
+/-- the chunk type depends on the input kind only, and the chunks themselves do not depend on it: `chunked` on
+    a str / bytes is `chunked` on its item list, re-joined chunk by chunk -/
+theorem chunkedK_eq (k : SrcKind) (size : Param) (count : Option Param) (fill : Option α) (src : List α) :
+    chunkedK k size count fill src = (chunkedP size count fill src).map (fun l => (chunkKind k, l)) ∧
+    (chunkKind k = .list ↔ k = .other) := by
+  refine ⟨rfl, ?_⟩
+  cases k <;> simp [chunkKind]
+
+example : chunkedK (α := Nat) .str (.int 2) none none [1, 2, 3] = .ok (.str, [[1, 2], [3]]) := by rfl
+
 /-! ## windowed / pairwise -/
 
 /-- without fill, `windowed` yields exactly the contiguous length-`size` slices, in order -/
